@@ -56,7 +56,9 @@ PartitionChecks(g, a) ==
 ---------------------------------------------------------------------------
 (* C13 *)
 
-Coarsens(fine, coarse) == \A c \in coarse : \E S \in SUBSET fine : UNION S = c
+(* every community of the coarser level is a union of communities of the finer one;
+   both being partitions of the same set, that is: every fine community lies inside a coarse one *)
+Coarsens(fine, coarse) == \A f \in fine : \E c \in coarse : f \subseteq c
 
 Singletons(g) == {{n} : n \in Names(g)}
 
